@@ -12,6 +12,9 @@ MODELS = {
             edges=[dict(s=1, t=3, w=2, lag=0), dict(s=3, t=2, w=4, lag=0), dict(s=2, t=4, w=6, lag=0), dict(s=4, t=1, w=-2, lag=0)]),
 }
 MODELS[3] = copy.deepcopy(MODELS[1]); MODELS[3]['edges'][0]['lag'] = 2        # first edge delayed: its delay can be swept
+# three identical nodes that linmodel.build(share=True) builds from one NodeTemplate object
+MODELS[4] = dict(n=3, c=[2, 2, 2], a=[-2, -2, -2], x0=[1, 1, 1], ext=[[], [], []], kind=[1, 1, 1],
+                 edges=[dict(s=1, t=2, w=2, lag=0), dict(s=2, t=3, w=4, lag=0), dict(s=3, t=1, w=-2, lag=0)])
 STEPS = 4
 
 
@@ -28,6 +31,8 @@ def adapt(m, keys, vals):
             m['a'][0] = v; m['a'][1] = v
         elif k == 5:
             m['edges'][0]['lag'] = int(abs(v))
+        elif k == 6:
+            m['a'][1] = v
     return m
 
 
@@ -47,6 +52,8 @@ def param_map(m, keys):
         elif k == 5:
             e = m['edges'][0]
             pm[name] = {'edges': [(f"n{e['s']}/lin1/x", f"n{e['t']}/lin1/u")], 'vars': ['delay']}
+        elif k == 6:
+            pm[name] = {'nodes': ['n2'], 'vars': ['lin1/a']}
     return pm
 
 
@@ -61,7 +68,7 @@ def job(case):
     grid = {f'p{i + 1}': [float(abs(x)) if cs['keys'][i] == 5 else float(x) for x in v] for i, v in enumerate(cs['vals'])}
     if cs['index']:
         grid = pd.DataFrame(grid, index=list(cs['index']))
-    circ = linmodel.build(m, name='net')
+    circ = linmodel.build(m, name='net', share=(cs['model'] == 4))
     inputs = {k: v for k, v in linmodel.inputs_of(m).items()} or None
     try:
         res, table = grid_search(circ, grid, param_map(m, cs['keys']), step_size=1.0, simulation_time=float(STEPS),
@@ -95,7 +102,7 @@ def run(ctx):
     ctx.assumptions += ['the oracle for the time series is a separate run() of the adapted model (itself checked against Solver.tla in C03)',
                         'linear integer models, Euler, dt = 1: exact comparison']
     c = tlc.cfg(constants=dict(Dev=set()), invariants=['LabelsInjective', 'EveryRowOnce', 'LabelKeepsItsRow', 'Export'])
-    r = tlc.run_tlc('Grid', c, workers=4, defs=dict(Cases='GridCases({1, 2}) \\cup EdgeAttrCases'), mc_extends=['GridCases'])
+    r = tlc.run_tlc('Grid', c, workers=4, defs=dict(Cases='GridCases({1, 2}) \\cup EdgeAttrCases \\cup SharedTemplateCases'), mc_extends=['GridCases'])
     ctx.add_tlc('design', r, 'P (linearize + label-based loop) satisfies M')
     if not r['ok']:
         ctx.spec_violation('design', r)
